@@ -14,7 +14,10 @@ EXPLANATION = (
     "character; (D1) a rename is recorded exactly when the identifier differs from the JSON name and carries the raw name "
     "(properties via recase, variants via raw_name != ident_name); (D2) sanitised names are checked for distinctness before they "
     "are committed: variants (twice, then abort), properties of one struct, items of the module; (D3) the replacement lookup and "
-    "type naming use the same sanitiser and case."
+    "type naming use the same sanitiser and case; "
+    "(D2, strengthened) a duplicate-field test that compares neighbours runs on the vector sorted by the compared identifier, "
+    "and a registered name held by another id is rejected under exactly `existing != inserted id`, looked up under the key "
+    "that is inserted."
 )
 ASSUMPTIONS = ["heck's case conversion and unicode-ident's XID tables"]
 
